@@ -235,7 +235,10 @@ class Environment:
             # environment.
             # Create a copy of the failure exception with a new traceback.
             # Multiple process can wait for the same failed event.
-            raise _copy_failure(event._value)
+            # (remembered: the failure may be of the class of one of run()'s
+            # own signals, StopSimulation or EmptySchedule)
+            self._escaped = _copy_failure(event._value)
+            raise self._escaped
 
         if stop is not None:
             raise stop
@@ -299,11 +302,21 @@ class Environment:
             while True:
                 self.step()
         except StopSimulation as exc:
+            if exc is getattr(self, '_escaped', None):
+                # not the stop request: a failure nobody handled
+                if until is not None:
+                    self._disarm(until)
+                raise
             failed = getattr(exc, 'failed', None)
             if failed is not None:
                 raise failed._value
             return exc.args[0]  # == until.value
-        except EmptySchedule:
+        except EmptySchedule as exc:
+            if exc is getattr(self, '_escaped', None):
+                # not "nothing left": a failure nobody handled
+                if until is not None:
+                    self._disarm(until)
+                raise
             if until is not None:
                 assert not until.triggered
                 self._disarm(until)
